@@ -57,6 +57,8 @@ class CollectSuite(Suite):
                 else:
                     ps = []
                 rng.shuffle(ps)
+                if ps and rng.random() < 0.12:
+                    ps.insert(rng.randint(0, len(ps)), rng.choice(ps))     # the same protein listed twice for one peptide
                 pep = gens.norm(rng.choice(["1/1024", "1/512", "1/100", "1/2"])) if rng.random() < 0.7 else gens.grid_pep(rng)
                 pil.append([e, pep, ps])
             mode = rng.choice(["discard", "discard", "razor", "razor", "with_shared"])
